@@ -21,6 +21,10 @@ for c in m['checks']:
     cov=ev['coverage']
     if ev['level']=='proof' and cov.get('obligations')!=cov.get('discharged'):
         evok+=' DISCHARGED!=OBLIGATIONS'; bad+=1
+    if ev['level']!=c['level_claimed']['category']:
+        evok+=' LEVEL-MISMATCH'; bad+=1
+    if ev['level']=='other' and not cov.get('explanation'):
+        evok+=' NO-EXPLANATION'; bad+=1
     viol='VIOLATION' in r.stdout
     if r.returncode!=0 or viol: bad+=1
     print(c['property_id'], 'exit', r.returncode, 'VIOLATION' if viol else '', evok, '%.0fs'%(time.time()-t), last[-1] if last else r.stdout[-200:])
